@@ -182,11 +182,10 @@ def _x0(seed):
 
 
 def _control(chain, seed):
-    """None if the chain runs for a deterministic stand-in of the site (eagerly
-    and under jit); otherwise the reason JAX rejects the composition."""
+    """None if the chain runs (eagerly) for a deterministic stand-in of the
+    site; otherwise the reason JAX rejects the composition."""
     k = (chain, seed)
     if k not in _CONTROL:
-        jax = _W["jax"]
         c = P.build("control", chain)
         x = _x0(seed)
         r = _guard(lambda: c(x))
@@ -220,35 +219,37 @@ def _f(v):
     return float(v) if v.shape == () else v.tolist()
 
 
-def evaluate(kind, chain, seed):
-    """Run one placement; memoised per worker.  Returns a record
-    {"control": why|None, "unseeded": {...}, "seeded": {...}}; each leg has
-    "outcome" (class counted in evidence), "symptom" (None or the violated
+def evaluate(kind, chain, seed, legs=("unseeded", "seeded")):
+    """Run (the requested legs of) one placement; memoised per worker and leg.
+    Returns {"control": why|None, "unseeded": {...}, "seeded": {...}}; each leg
+    has "outcome" (class counted in evidence), "symptom" (None or the violated
     clause) and the observed values."""
-    mk = (kind, chain, seed)
-    if mk in _MEMO:
-        return _MEMO[mk]
-    jax = _W["jax"]
     rec = {"control": _control(chain, seed)}
     if rec["control"] is not None:
-        _MEMO[mk] = rec
         return rec
-    x = _x0(seed)
-    keys = _keys(seed)
-    f = P.build(kind, chain)
-    compiled, vm = P.compiles(chain), P.has_vmap(chain)
+    for legname in legs:
+        mk = (kind, chain, seed, legname)
+        if mk not in _MEMO:
+            f = P.build(kind, chain)
+            _MEMO[mk] = (_unseeded_leg if legname == "unseeded" else _seeded_leg)(f, chain, seed)
+        rec[legname] = _MEMO[mk]
+    return rec
 
-    # ---------------- unseeded leg
+
+def _unseeded_leg(f, chain, seed):
+    x = _x0(seed)
+    compiled, vm = P.compiles(chain), P.has_vmap(chain)
     u = _guard(lambda: f(x))
     leg = {"observed": u[0], "warned": u[2]}
     if u[0] == "value":
         leg["value"] = _f(u[1])
     else:
         leg["msg"] = u[1]
+    returned = "returned-value" + ("-with-warning" if u[2] else "")
     if vm:
         leg["expected"] = "raises (any exception): plain vmap over a sampling site"
         if u[0] == "value":
-            leg["outcome"], leg["symptom"] = "unseeded_violation", "returned-value" + ("-with-warning" if u[2] else "")
+            leg["outcome"], leg["symptom"] = "unseeded_violation", returned
         else:
             leg["outcome"], leg["symptom"] = "raised_under_vmap", None
     elif compiled:
@@ -256,15 +257,20 @@ def evaluate(kind, chain, seed):
         if u[0] == "dedicated":
             leg["outcome"], leg["symptom"] = "raised_dedicated", None
         elif u[0] == "value":
-            leg["outcome"], leg["symptom"] = "unseeded_violation", "returned-value" + ("-with-warning" if u[2] else "")
+            leg["outcome"], leg["symptom"] = "unseeded_violation", returned
         else:
             leg["outcome"], leg["symptom"] = "unseeded_violation", "raised-" + u[0]
     else:
         leg["expected"] = "outside the claim (nothing is compiled)"
         leg["outcome"], leg["symptom"] = "eager_not_compiled", None
-    rec["unseeded"] = leg
+    return leg
 
-    # ---------------- seeded leg
+
+def _seeded_leg(f, chain, seed):
+    jax = _W["jax"]
+    x = _x0(seed)
+    keys = _keys(seed)
+    vm = P.has_vmap(chain)
     sf = _W["seed"](f)
     s = _guard(lambda: sf(keys[0], x))
     leg = {"observed": s[0], "warned": s[2]}
@@ -281,96 +287,89 @@ def evaluate(kind, chain, seed):
         else:
             leg["outcome"], leg["symptom"] = "seeded_violation", "raised-" + s[0]
             leg["expected"] = "LoweringSamplePrimitiveToMLIRException or a keyed result"
+        return leg
+    flags = []
+    leg["eager_k0"] = _f(s[1])
+    j = jax.jit(sf)
+    sj = _guard(lambda: j(keys[0], x))
+    if sj[0] != "value":
+        if sj[0] != "dedicated":
+            # attribute it: the deterministic stand-in must survive jit(seed(.))
+            c = P.build("control", chain)
+            cj = _guard(lambda: jax.jit(_W["seed"](c))(keys[0], x))
+            leg["control_jit_seed"] = cj[0]
+        flags.append("jit-raises:" + (sj[1] if sj[0] == "dedicated" else sj[0][6:]))
+        leg["jit_msg"] = sj[1]
+        runner, first = sf, s[1]
     else:
-        flags = []
-        leg["eager_k0"] = _f(s[1])
-        j = jax.jit(sf)
-        sj = _guard(lambda: j(keys[0], x))
-        if sj[0] != "value":
-            if sj[0] != "dedicated":
-                # attribute it: the deterministic stand-in must survive jit(seed(.))
-                c = P.build("control", chain)
-                cj = _guard(lambda: jax.jit(_W["seed"](c))(keys[0], x))
-                leg["control_jit_seed"] = cj[0]
-            flags.append("jit-raises:" + (sj[1] if sj[0] == "dedicated" else sj[0][6:]))
-            leg["jit_msg"] = sj[1]
-            runner, first = sf, s[1]
-        else:
-            leg["jit_k0"] = _f(sj[1])
-            if not _close(s[1], sj[1]):
-                flags.append("jit-differs")
-            runner, first = j, sj[1]
-        # (a) equal keys -> equal bits
-        rep = _guard(lambda: runner(keys[0], x))
-        leg["repeat_k0"] = _f(rep[1]) if rep[0] == "value" else rep[0]
-        if rep[0] != "value" or _bits(rep[1]) != _bits(first):
-            flags.append("not-repeatable")
-        # (b) different keys -> different result (3 other keys before giving up:
-        # a 2^-24 coincidence of 24 coin flips must not raise an alarm)
-        others = []
-        for kk in keys[1:]:
-            o = _guard(lambda: runner(kk, x))
-            others.append(_f(o[1]) if o[0] == "value" else o[0])
-            if o[0] != "value" or _bits(o[1]) != _bits(first):
-                break
-        else:
-            flags.append("key-independent")
-        leg["other_keys"] = others
-        # (c) nothing left to lower
-        jp = _guard(lambda: P.count_sample_primitives(jax.make_jaxpr(sf)(keys[0], x)))
-        if jp[0] != "value":
-            flags.append("make_jaxpr-raises:" + jp[0])
-        else:
-            leg["sample_primitives_in_staged_program"] = int(jp[1])
-            if int(jp[1]) > 0:
-                flags.append("sample-primitive-staged")
-        leg["flags"] = flags
-        leg["staged_scanned"] = jp[0] == "value"
-        hidden = [fl for fl in flags if fl in ("not-repeatable", "key-independent")]
-        if s[2] or sj[2]:
-            flags.append("lowering-warning")
-        if not flags:
-            leg["outcome"], leg["symptom"] = "seeded_ok", None
-        else:
-            leg["outcome"] = "seeded_violation"
-            leg["expected"] = (
-                "bit-equal on repeat, differs across keys, no sample primitive staged, jit(seed(f)) agrees"
-            )
-            if hidden:
-                leg["symptom"] = "hidden-randomness"
-            elif "sample-primitive-staged" in flags:
-                leg["symptom"] = "sample-primitive-staged"
-            else:
-                leg["symptom"] = flags[0]
-    rec["seeded"] = leg
-    _MEMO[mk] = rec
-    return rec
+        leg["jit_k0"] = _f(sj[1])
+        if not _close(s[1], sj[1]):
+            flags.append("jit-differs")
+        runner, first = j, sj[1]
+    # (a) equal keys -> equal bits
+    rep = _guard(lambda: runner(keys[0], x))
+    leg["repeat_k0"] = _f(rep[1]) if rep[0] == "value" else rep[0]
+    if rep[0] != "value" or _bits(rep[1]) != _bits(first):
+        flags.append("not-repeatable")
+    # (b) different keys -> different result (3 other keys before giving up: a
+    # 2^-24 coincidence of 24 coin flips must not raise an alarm)
+    others = []
+    for kk in keys[1:]:
+        o = _guard(lambda: runner(kk, x))
+        others.append(_f(o[1]) if o[0] == "value" else o[0])
+        if o[0] != "value" or _bits(o[1]) != _bits(first):
+            break
+    else:
+        flags.append("key-independent")
+    leg["other_keys"] = others
+    # (c) nothing left to lower
+    jp = _guard(lambda: P.count_sample_primitives(jax.make_jaxpr(sf)(keys[0], x)))
+    if jp[0] != "value":
+        flags.append("make_jaxpr-raises:" + jp[0])
+    else:
+        leg["sample_primitives_in_staged_program"] = int(jp[1])
+        if int(jp[1]) > 0:
+            flags.append("sample-primitive-staged")
+    leg["staged_scanned"] = jp[0] == "value"
+    if s[2] or sj[2]:
+        flags.append("lowering-warning")
+    leg["flags"] = flags
+    if not flags:
+        leg["outcome"], leg["symptom"] = "seeded_ok", None
+        return leg
+    leg["outcome"] = "seeded_violation"
+    leg["expected"] = "bit-equal on repeat, differs across keys, no sample primitive staged, jit(seed(f)) agrees"
+    if "not-repeatable" in flags or "key-independent" in flags:
+        leg["symptom"] = "hidden-randomness"
+    elif "sample-primitive-staged" in flags:
+        leg["symptom"] = "sample-primitive-staged"
+    else:
+        leg["symptom"] = flags[0]
+    return leg
 
 
 def _in_claim(chain, legname):
-    if not chain:
-        return False
     if legname == "unseeded":
         return P.compiles(chain) or P.has_vmap(chain)
     return True
 
 
 def minimise(kind, chain, seed, legname, symptom):
-    """Greedy 1-minimal sub-chain (a subsequence) that still shows ``symptom``
-    in ``legname``."""
-    cur = tuple(chain)
-    i = 0
-    while i < len(cur):
-        cand = cur[:i] + cur[i + 1 :]
-        ok = False
-        if _in_claim(cand, legname):
-            r = evaluate(kind, cand, seed)
-            ok = r["control"] is None and r[legname]["symptom"] == symptom
-        if ok:
-            cur = cand
-        else:
-            i += 1
-    return cur
+    """Smallest sub-chain (subsequence of the chain, sizes tried in increasing
+    order, positions in lexicographic order) that shows the same symptom in the
+    same leg; the chain itself if no proper sub-chain does."""
+    import itertools
+
+    chain = tuple(chain)
+    for size in range(1, len(chain)):
+        for pos in itertools.combinations(range(len(chain)), size):
+            cand = tuple(chain[i] for i in pos)
+            if not _in_claim(cand, legname):
+                continue
+            r = evaluate(kind, cand, seed, legs=(legname,))
+            if r["control"] is None and r[legname]["symptom"] == symptom:
+                return cand
+    return chain
 
 
 def key_chain(chain, legname):
